@@ -572,7 +572,5 @@ _cache = {}
 
 
 def walker_for(src):
-    k = id(src)
-    if k not in _cache or _cache[k][0] is not src:
-        _cache[k] = (src, WalkerModel(src))
-    return _cache[k][1]
+    from .source import memo_on
+    return memo_on(src, 'walker', lambda: WalkerModel(src))
